@@ -27,5 +27,7 @@ for d in sorted(glob.glob(os.path.join(ROOT, "C*"))):
                                            "PYTHONPATH=<worktree> /venv/bin/python -m pytest -q -p no:cacheprovider --timeout=900 (changed tree)",
                                            "git apply -R patch.diff; demo.py (unchanged tree)"], **conf),
                 checks=checks)
+    if entry.get("first_pass"):
+        meta["first_pass"] = entry["first_pass"]
     json.dump(meta, open(os.path.join(d, "meta.json"), "w"), indent=1)
     print(sid, {k: (v["caught"], v["with_failing_input"]) for k, v in checks.items()})
